@@ -46,7 +46,10 @@ def run(tier):
             for t2 in (D.TYPES[arch] if variant == 'asan' else ['zoo', 'csvrows', 'dyn', 'maps', 'v_str', 'csvmaps', 'm_i64_str']):
                 if t2 in D.TYPES[arch]:
                     for rep in range(3 if q else 40):
-                        lines.append(D.case_line('save', arch, t2, 'r_%s_%s_%d' % (arch, t2, rep), seed=rng.randrange(1, 2 ** 62), sink='mem', maxsize=3))
+                        fmtopts = {}
+                        if arch in ('json', 'xml') and rng.random() < 0.5:
+                            fmtopts = dict(fmt=1, padc=rng.choice(['s', 't']), padn=rng.choice([1, 2, 3, 4, 8]))
+                        lines.append(D.case_line('save', arch, t2, 'r_%s_%s_%d' % (arch, t2, rep), seed=rng.randrange(1, 2 ** 62), sink='mem', maxsize=3, **fmtopts))
         by, crashes = core.run_cases(exe, lines, variant)
         for ln, key, err, rc in crashes:
             ck.violation('crash-on-save/%s' % key, {'driver': 'drv_doc', 'variant': variant, 'case': ln, 'stderr': err[-1500:]}, 'process died while saving: ' + key)
@@ -67,9 +70,11 @@ def run(tier):
         for ln in lines:
             if ln.startswith('op=save') and ' id=p_' in ln:
                 lines2.append(ln.replace(' id=p_', ' id=s_').replace('sink=mem', 'sink=sstream'))
+            elif ln.startswith('op=save') and ' id=r_' in ln:
+                lines2.append(ln.replace(' id=r_', ' id=t_').replace('sink=mem', 'sink=sstream'))      # every type, with its format options
         by2, _ = core.run_cases(exe, lines2, variant)
         for cid, e in by2.items():
-            e0 = by.get('p_' + cid[2:])
+            e0 = by.get(('p_' if cid.startswith('s_') else 'r_') + cid[2:])
             if e0 and e0.get('out') == 'ok' and e.get('out') == 'ok':
                 ck.case(('save', cid, variant), nontrivial=True)
                 if e0['bytes'] != e['bytes']:
